@@ -52,7 +52,8 @@ CHECKS.update({
                  "parameter node and for tensor parameters (shape, requires_grad, dtype); the einsum optimisation rule equals ReduceSum o OuterProduct "
                  "for every rank <= 4 and dim pair; fold-pointwise kernels (shared with C14); 2-safety of fold_settings for EVERY concrete layer class (classes read "
                  "from the tree: equal fold settings imply equal config, parameter names / shapes, number of variables) and _fold_layers_group (config of the group, "
-                 "scope_idx / parameters / wrapped layers in group order, folds summed); build_folded_graph and address-book entries on templates; the pattern "
+                 "scope_idx / parameters / wrapped layers in group order, folds summed); build_folded_graph on templates and by the loop rule (list of symbolic length, symbolic fold ids, groups of 1-3 modules of arity 0-3; "
+                 "suffix for 1-3 outputs), address-book entries on templates; the pattern "
                  "matchers _match_parameter_nodes_pattern / _match_layer_pattern return only exclusive chains (symbolic in/out-degrees, free class membership, "
                  "pattern length <= 4, config and parameter sub-patterns); apply_tucker / apply_candecomp / apply_sum_collapse and the fused kernels in the "
                  "compiler's semiring; the tensor-dot layer's kernel and the shatter rules for Kronecker-product weights; optimize_graph (denotation-preserving on "
